@@ -1,11 +1,13 @@
 package props
 
 import (
+	"os"
 	"strings"
 
 	"golang.org/x/tools/go/ssa"
 
 	"verif/sa/internal/e4panic"
+	"verif/sa/internal/e5path"
 	"verif/sa/internal/e8grammar"
 	"verif/sa/internal/e9pos"
 	"verif/sa/internal/load"
@@ -29,16 +31,16 @@ var panicExceptions = []e4panic.Exception{
 }
 
 var panicInvariants = []e4panic.Invariant{
-	{Func: "transformer.TransformModuleFilesToModel", Value: "‹v›[‹v›].Metadata", Requires: "len(‹v›[‹v›].Relations) == 0 is false",
+	{Func: "transformer.TransformModuleFilesToModel", Value: "‹v›[slices.IndexFunc(‹v›, ‹v›)].Metadata", Requires: "len(‹v›[slices.IndexFunc(‹v›, ‹v›)].Relations) == 0 is false",
 		Reason: "paired maps: a base type definition that has relations was built by the DSL listener with Metadata and Metadata.Relations populated under the same keys (ExitRelationDeclaration; ExitTypeDef drops Metadata only when there are no relations)"},
-	{Func: "transformer.TransformModuleFilesToModel", Value: "‹v›[‹v›].Metadata.Relations", Requires: "len(‹v›[‹v›].Relations) == 0 is false",
+	{Func: "transformer.TransformModuleFilesToModel", Value: "‹v›[slices.IndexFunc(‹v›, ‹v›)].Metadata.Relations", Requires: "len(‹v›[slices.IndexFunc(‹v›, ‹v›)].Relations) == 0 is false",
 		Reason: "paired maps: as above — Relations non-empty implies Metadata.Relations non-empty, hence non-nil"},
 	{Func: "transformer.TransformModuleFilesToModel", Value: "relationsMeta",
 		Reason: "paired maps: for every type definition built by the DSL listener, Relations and Metadata.Relations are written together under the same key (ExitRelationDeclaration) and the merger itself keeps them paired, so the metadata entry for a name taken from typeDef.Relations exists and is non-nil"},
 }
 
 // panicFreedom runs E4 over the functions reachable from the entry points, restricted to the given packages.
-func panicFreedom(c *Ctx, r *oblig.Report, rule string, entries []string, pkgs map[string]bool) {
+func panicFreedom(c *Ctx, r *oblig.Report, rule string, entries []string, pkgs map[string]bool) *e4panic.Analysis {
 	roots := c.Entries(entries...)
 	all := c.Reach(roots)
 	var fs []*ssa.Function
@@ -80,10 +82,19 @@ func panicFreedom(c *Ctx, r *oblig.Report, rule string, entries []string, pkgs m
 		r.Analysed["typestate_facts"] = a.Facts.Used
 	}
 	r.Analysed["reviewed_invariants_used"] = a.UsedInvariants
+	r.Analysed["reviewed_exceptions"] = panicExceptions
+	r.Analysed["reviewed_invariants"] = panicInvariants
+	return a
 }
 
 func runC08(r *oblig.Report) {
-	r.Explanation = "C08 (work in progress in this commit): panic freedom (E4) and lexer stack divergence (R8.6)."
+	r.Explanation = "Decides necessary conditions of C08. (E4) Panic freedom of the repository's own code, stage 1 = packages transformer, utils, validation, errors: every instruction that can panic (nil dereference, nil-map write, index/slice bounds, unchecked assertion, nil interface or function call, explicit panic) in the functions reachable from the public entry points — the listener callbacks included — is enumerated from SSA and discharged by a positive rule: " +
+		"D1 fresh/initialised-in-literal/flow, D2 parameter non-nil at every call site (fixpoint), D3 dominating nil test on the same value or expression (short-circuit phis expanded), D5 enumerated library/runtime contracts, D6 length and index facts (loop indices, IndexFunc results guarded against -1, len lower bounds), " +
+		"D7 grammar-driven typestate for listener fields (a field set in Enter(R) is set in callbacks of every rule R dominates in the rule-invocation graph of the embedded automaton, provided the guard accessors are populated in the generated rule function before the sub-rule is parsed; flag and enter/exit correlations), D8 balanced rewrite stack, D9 container-element invariants for internally built containers; reviewed exceptions and invariants are listed in the evidence. " +
+		"Stage 2 (graph package) is NOT closed: there only the typed-nil rule is decided (no possibly-nil pointer is converted to an interface). (R8.6) No lexer configuration inside a recursive lexer rule is re-entered by one word with two different call-stack growths, on the inputs the pre-pass can produce — necessary for the quadratic bound. " +
+		"(R5.1/R5.2/R5.6) Syntax errors always surface: the collecting error listener is attached to lexer and parser, records every error on every path, any recorded error voids the result, and decoder errors are propagated."
+	r.NotCovered = []string{"nil dereferences and bounds inside the graph package beyond the typed-nil rule (structure invariants of the node/edge maps were not closed)", "termination and complexity in general (ANTLR prediction, regexp, yaml)", "panics inside third-party runtimes", "Must* wrappers (panic by contract)", "well-foundedness of recursion (D10 not built)"}
+	r.Assumptions = []string{"ANTLR runtime contracts listed in /verif/sa/internal/e4panic (GetParser, GetStart, rule functions return their context, the walker pairs Enter/Exit)", "entry-point pointer arguments themselves are non-nil (a nil model is not a structurally valid model); everything reachable from them may be nil"}
 	c := NewCtx(r)
 	if c == nil {
 		return
@@ -96,8 +107,42 @@ func runC08(r *oblig.Report) {
 		cut = strings.Join(pp.TrimCutSets, "")
 	}
 	w.R86(r, "R8.6", cut, 3)
-	r.Rule("E4", "universe", "every may-panic instruction of the repository's own code reachable from the public entry points is discharged by a positive rule", 0)
-	panicFreedom(c, r, "E4", c08Entries, map[string]bool{"transformer": true, "utils": true, "validation": true, "errors": true})
+	r.Rule("E4", "universe", "every may-panic instruction of the repository's own code (stage 1 packages) reachable from the public entry points is discharged by a positive rule", 0).HandCount = 476
+	pk := map[string]bool{"transformer": true, "utils": true, "validation": true, "errors": true}
+	if os.Getenv("VERIF_E4_GRAPH") != "" {
+		pk["graph"] = true
+	}
+	a := panicFreedom(c, r, "E4", c08Entries, pk)
+	r.Rule("E4.tn", "universe", "graph package: no possibly-nil pointer is converted to an interface value", 0)
+	var gfs []*ssa.Function
+	for _, f := range c.Reach(c.Entries("graph.NewAuthorizationModelGraph", "graph.WeightedAuthorizationModelGraphBuilder.Build")) {
+		if pkg := load.FuncPkg(f); pkg != nil && load.ShortPkg(pkg) == "graph" {
+			gfs = append(gfs, f)
+		}
+	}
+	ga := &e4panic.Analysis{P: c.P, R: r, Funcs: gfs}
+	ga.Collect()
+	gentry := map[*ssa.Function][]int{}
+	for _, f := range c.Entries("graph.NewAuthorizationModelGraph", "graph.WeightedAuthorizationModelGraphBuilder.Build") {
+		gentry[f] = []int{0, 1}
+	}
+	ga.Summaries(gentry)
+	ga.TypedNil("E4.tn", gfs)
+	_ = a
+	r.Rule("R5.1", "instance-table", "any collected error voids the result", 2)
+	r.Rule("R5.2", "instance-table", "the returned error listener is attached to lexer and parser and records every error", 4)
+	r.Rule("R5.6", "instance-table", "decoder and callee errors are propagated, never dropped", 6)
+	e5path.ErrorsVoidResult(c.P, r, "R5.1", c.Entry("transformer.TransformDSLToProto"))
+	e5path.ErrorsVoidResult(c.P, r, "R5.1", c.Entry("transformer.TransformModularDSLToProto"))
+	e5path.ListenerWiring(c.P, r, "R5.2")
+	e5path.SyntaxErrorAlwaysRecords(c.P, r, "R5.2")
+	var tfs []*ssa.Function
+	for _, f := range c.Reach(c.Entries("transformer.TransformJSONStringToDSL", "transformer.TransformDSLToJSON", "transformer.TransformModFile", "transformer.LoadJSONStringToProto")) {
+		if pkg := load.FuncPkg(f); pkg != nil && load.ShortPkg(pkg) == "transformer" {
+			tfs = append(tfs, f)
+		}
+	}
+	e5path.Propagation(c.P, r, "R5.6", tfs, nil)
 }
 
 func upperFirstName(s string) string {
